@@ -134,7 +134,7 @@ func run1(raw json.RawMessage) lib.Case {
 		if lvl == "" {
 			lvl = in.Kind
 		}
-		return lib.Case{Coq: "CDecode [] 0 DOPanic true", Class: lvl + "-" + in.Tag + "-process-died",
+		return lib.Case{Coq: "CDecode [] 0 DOPanic true true", Class: lvl + "-" + in.Tag + "-process-died",
 			Obs: map[string]interface{}{"crash": "the process running the implementation died", "stderr": msg}, Nontrivial: true}
 	}
 	var co caseOut
